@@ -747,7 +747,7 @@ def epoch_conformance(tier, seed=0):
         res_all['ok'] = False
         json.dump(res_all, open(cp, 'w'))
         return res_all
-    plan = [(n, [p for p in progs if not any(s in p.split()[1] for s in ('ep_stall', 'ep_edge', 'ep_reuse_edge'))], par)
+    plan = [(n, [p for p in progs if not any(s in p.split()[1] for s in ('ep_stall', 'ep_edge', 'ep_reuse_edge', 'ep_hand', 'ep_reuse_hold', 'ep_hold'))], par)
             for n, progs, par in checks.epoch_programs(tier, ('pin', 'mono', 'list'))]
     # node retirement (FDelete) needs more than two 256-epoch ranges: bulk forwards, a guard taken afterwards
     plan.append((3, [checks.ep_prog('ep_conf_retire', 3, ['BAR:1:2 GL RL D G D', 'FQ:515 BAR:1:2 F F F'])], dict(pb=1, max_exec=40)))
@@ -794,6 +794,11 @@ def epoch_conformance(tier, seed=0):
                                         'before': h[max(0, r['line'] - 3):r['line']]})
         if rej:
             res_all['ok'] = False
+        if not hists or skipped[0] * 5 > len(execs):
+            # (almost) nothing of what the code does could be expressed in the model's vocabulary: that is drift too
+            res_all['ok'] = False
+            res_all['rejected'].append({'capacity': n, 'program': None, 'line': None,
+                                        'event': '%d of %d executions use operations EpochImpl does not have' % (skipped[0], len(execs))})
         if hists and not res_all.get('sample'):
             res_all['sample'] = {'program': reps[0].prog, 'schedule': reps[0].sched,
                                  'stream_head': [{k: v for k, v in e.items() if v not in (-1, [])} for e in hists[0][:14]]}
